@@ -77,6 +77,19 @@ func execOps(stream, in, outp string) {
 		fmt.Fprintln(os.Stderr, "unknown stream", stream)
 		os.Exit(2)
 	}
+	if d, ok := s.(*debSUT); ok {
+		// side file: one `trace ...` line per `end`, the observed event trace of that case (input of
+		// the Lean driver's trace acceptance)
+		tr := wire.Create(outp + ".trace")
+		defer tr.Close()
+		d.traceOut = tr
+		for _, f := range wire.ReadLines(in) {
+			out.Line(d.apply(f))
+			out.Flush()
+			d.traceOut = tr // `case` replaces the SUT value
+		}
+		return
+	}
 	for _, f := range wire.ReadLines(in) {
 		out.Line(s.apply(f))
 		out.Flush()
